@@ -12,5 +12,17 @@ SPEC = {
         'config': {'stubs': STUBS, 'defines': ['-DCPPUTEST_VERIF_HASH_TABLE_SIZE=4'], 'heapcheck': False},
         'obligations': [{'fn': 'harness_release_%d' % n, 'unwind': 32, 'timeout': 900, 'bounds': B % n} for n in (0, 1, 5, 8)] + [
             {'fn': 'harness_double_release', 'unwind': 32, 'timeout': 1800, 'tier': 'thorough', 'bounds': 'one block of 4 bytes, family and layout symbolic; release, release again'}],
+    }, {
+        # plugin level: "the user bytes of a block released through delete, delete[] or free are overwritten BEFORE the memory is returned":
+        # the real mem_leak_* / threadsafe_mem_leak_* entry points (harness shared with C10)
+        'name': 'plugin', 'wrapper': '../C10/w10.cpp', 'harness': '../C10/h10.c',
+        'config': {'memleak': True, 'heapcheck': False, 'defines': ['-DCPPUTEST_VERIF_HASH_TABLE_SIZE=4'],
+                   'empty_regex': ['^_ZN[0-9]+[A-Za-z]*FailureC[12]E', '^_ZN[0-9]+[A-Za-z]*FailureD[012]E'],
+                   'stubs': ['_ZN18MemoryLeakDetector11allocMemoryEP19TestMemoryAllocatormPKcmb', '_ZN18MemoryLeakDetector11allocMemoryEP19TestMemoryAllocatormb',
+                             '_ZN18MemoryLeakDetector13deallocMemoryEP19TestMemoryAllocatorPvPKcmb', '_ZN18MemoryLeakDetector13deallocMemoryEP19TestMemoryAllocatorPvb',
+                             '_ZN18MemoryLeakDetector13reallocMemoryEP19TestMemoryAllocatorPcmPKcmb', '_ZN18MemoryLeakDetector16invalidateMemoryEPc']},
+        'obligations': [{'fn': 'harness_entry_%d_%d' % (k, m), 'unwind': 40, 'timeout': 600, 'diff_runs': 20, 'optional_witness': ['exit path', 'skipped', 'end'],
+                         'bounds': 'release through %s in %s mode: poisoned before it leaves the accounting' % (n, ('default', 'thread-safe')[m - 1])}
+                        for k, n in ((6, 'operator delete'), (7, 'operator delete[]'), (10, 'free')) for m in (1, 2)],
     }],
 }
